@@ -458,51 +458,133 @@ inductive Param
   | lens (l : List (List Nat))
 deriving Repr, BEq
 
+/-- argument dispatch for a constructor with one integer argument -/
+def args1 (f : Nat → Option PermDef) (args : List Nat) (flags : List Bool) : Option PermDef :=
+  match args, flags with
+  | [n], [] => f n
+  | _, _ => none
+
+/-- two integer arguments, the second one with a default value -/
+def args2d (f : Nat → Nat → Option PermDef) (dflt : Nat) (args : List Nat) (flags : List Bool) :
+    Option PermDef :=
+  match args, flags with
+  | [n], [] => f n dflt
+  | [n, k], [] => f n k
+  | _, _ => none
+
+/-- two mandatory integer arguments -/
+def args2 (f : Nat → Nat → Option PermDef) (args : List Nat) (flags : List Bool) : Option PermDef :=
+  match args, flags with
+  | [n, k], [] => f n k
+  | _, _ => none
+
+/-- one integer argument and the boolean `add_inverses` (default `True`) -/
+def args1f (f : Nat → Bool → Option PermDef) (args : List Nat) (flags : List Bool) : Option PermDef :=
+  match args, flags with
+  | [n], [] => f n true
+  | [n], [b] => f n b
+  | _, _ => none
+
+/-- `koltsov3(n, perm_type=2, k=1, d=1)` -/
+def argsKoltsov (args : List Nat) (flags : List Bool) : Option PermDef :=
+  match args, flags with
+  | [n], [] => koltsov3 n 2 1 1
+  | [n, t], [] => koltsov3 n t 1 1
+  | [n, t, k], [] => koltsov3 n t k 1
+  | [n, t, k, d], [] => koltsov3 n t k d
+  | _, _ => none
+
 /-- `PermutationGroups.<fam>(*args, <flags>)`; omitted trailing arguments take the Python defaults;
 `none` = outside the documented range / the code asserts or raises (or unknown `fam`) -/
 def permFamily (fam : String) (args : List Nat) (flags : List Bool := []) : Option PermDef :=
-  match fam, args, flags with
-  | "all_transpositions", [n], [] => allTranspositions n
-  | "transposons", [n], [] => transposons n
-  | "block_interchange", [n], [] => blockInterchange n
-  | "full_reversals", [n], [] => fullReversals n
-  | "signed_reversals", [n], [] => signedReversals n
-  | "lrx", [n], [] => lrx n 1
-  | "lrx", [n, k], [] => lrx n k
-  | "lx", [n], [] => lx n
-  | "top_spin", [n], [] => topSpin n 4
-  | "top_spin", [n, k], [] => topSpin n k
-  | "coxeter", [n], [] => coxeter n
-  | "cyclic_coxeter", [n], [] => cyclicCoxeter n
-  | "pancake", [n], [] => pancake n
-  | "cubic_pancake", [n, subset], [] => cubicPancake n subset
-  | "burnt_pancake", [n], [] => burntPancake n
-  | "three_cycles", [n], [] => threeCycles n
-  | "three_cycles_0ij", [n], [] => threeCycles0ij n
-  | "three_cycles_01i", [n], [] => threeCycles01i n true
-  | "three_cycles_01i", [n], [b] => threeCycles01i n b
-  | "derangements", [n], [] => derangements n
-  | "involutive_derangements", [n], [] => involutiveDerangements n
-  | "stars", [n], [] => stars n
-  | "generalized_stars", [n], [] => generalizedStars n 1
-  | "generalized_stars", [n, k], [] => generalizedStars n k
-  | "rapaport_m1", [n], [] => rapaportM1 n
-  | "rapaport_m2", [n], [] => rapaportM2 n
-  | "all_cycles", [n], [] => allCycles n
-  | "lsl_cycles", [n], [] => lslCycles n true
-  | "lsl_cycles", [n], [b] => lslCycles n b
-  | "wrapped_k_cycles", [n, k], [] => wrappedKCycles n k
-  | "larx", [n], [] => larx n
-  | "increasing_k_cycles", [n, k], [] => increasingKCycles n k
-  | "sheveleva2", [n, k], [] => sheveleva2 n k
-  | "koltsov3", [n], [] => koltsov3 n 2 1 1
-  | "koltsov3", [n, t], [] => koltsov3 n t 1 1
-  | "koltsov3", [n, t, k], [] => koltsov3 n t k 1
-  | "koltsov3", [n, t, k, d], [] => koltsov3 n t k d
-  | "consecutive_k_cycles", [n, k], [] => consecutiveKCycles n k
-  | "down_cycles", [n], [] => downCycles n
-  | "prefix_cycles", [n], [] => prefixCycles n
-  | _, _, _ => none
+  if fam = "all_transpositions" then args1 allTranspositions args flags
+  else if fam = "transposons" then args1 transposons args flags
+  else if fam = "block_interchange" then args1 blockInterchange args flags
+  else if fam = "full_reversals" then args1 fullReversals args flags
+  else if fam = "signed_reversals" then args1 signedReversals args flags
+  else if fam = "lrx" then args2d lrx 1 args flags
+  else if fam = "lx" then args1 lx args flags
+  else if fam = "top_spin" then args2d topSpin 4 args flags
+  else if fam = "coxeter" then args1 coxeter args flags
+  else if fam = "cyclic_coxeter" then args1 cyclicCoxeter args flags
+  else if fam = "pancake" then args1 pancake args flags
+  else if fam = "cubic_pancake" then args2 cubicPancake args flags
+  else if fam = "burnt_pancake" then args1 burntPancake args flags
+  else if fam = "three_cycles" then args1 threeCycles args flags
+  else if fam = "three_cycles_0ij" then args1 threeCycles0ij args flags
+  else if fam = "three_cycles_01i" then args1f threeCycles01i args flags
+  else if fam = "derangements" then args1 derangements args flags
+  else if fam = "involutive_derangements" then args1 involutiveDerangements args flags
+  else if fam = "stars" then args1 stars args flags
+  else if fam = "generalized_stars" then args2d generalizedStars 1 args flags
+  else if fam = "rapaport_m1" then args1 rapaportM1 args flags
+  else if fam = "rapaport_m2" then args1 rapaportM2 args flags
+  else if fam = "all_cycles" then args1 allCycles args flags
+  else if fam = "lsl_cycles" then args1f lslCycles args flags
+  else if fam = "wrapped_k_cycles" then args2 wrappedKCycles args flags
+  else if fam = "larx" then args1 larx args flags
+  else if fam = "increasing_k_cycles" then args2 increasingKCycles args flags
+  else if fam = "sheveleva2" then args2 sheveleva2 args flags
+  else if fam = "koltsov3" then argsKoltsov args flags
+  else if fam = "consecutive_k_cycles" then args2 consecutiveKCycles args flags
+  else if fam = "down_cycles" then args1 downCycles args flags
+  else if fam = "prefix_cycles" then args1 prefixCycles args flags
+  else none
+
+/-! ### `conjugacy_classes` (deterministic part) and the heterogeneous argument list -/
+
+/-- insertion into a decreasingly sorted list -/
+def insertDesc (a : Nat) : List Nat → List Nat
+  | [] => [a]
+  | b :: t => if b ≤ a then a :: b :: t else b :: insertDesc a t
+
+/-- `sorted(l, reverse=True)` -/
+def sortDesc (l : List Nat) : List Nat := l.foldr insertDesc []
+
+/-- `PermutationGroups.conjugacy_classes(n, {c: None for c in classes})`: for every class (a tuple of
+cycle lengths with sum `≤ n`, padded with 1-cycles and sorted decreasingly) ALL permutations of that
+cycle type, in the order of `permutations_with_cycle_lenghts` (modelled in `CvModel/Perm.lean`), named
+`(<lengths>)_<i>`.  Random sampling (`n_samples` not `None`) is not modelled.  A Python `dict` has
+distinct keys: repeated classes are dropped. -/
+def conjugacyClasses (n : Nat) (classes : List (List Nat)) : Option PermDef :=
+  let classes := classes.eraseDups
+  if 1 ≤ n ∧ classes.all (fun c => c.all (0 < ·) && c.sum ≤ n) then
+    let full := classes.map fun c =>
+      sortDesc (c ++ List.replicate (n - c.sum) 1)
+    match full.mapM fun ls => Cv.Perm.permutationsWithCycleLengths n ls with
+    | none => none
+    | some perClass =>
+      let labels := full.map fun ls => ",".intercalate (ls.map showNat)
+      let gens := perClass.flatten
+      if gens.isEmpty then none else
+      some { gens := gens
+             names := (List.zip labels perClass).flatMap fun x =>
+               (List.range x.2.length).map fun i => "(" ++ x.1 ++ ")_" ++ showNat (i + 1)
+             central := List.range n
+             name := "conjugacy_class-" ++ showNat n ++ "-" ++ "-".intercalate labels }
+  else none
+
+def Param.nat? : Param → Option Nat
+  | .nat v => some v
+  | _ => none
+
+def Param.flag? : Param → Option Bool
+  | .flag b => some b
+  | _ => none
+
+def Param.isLens : Param → Bool
+  | .lens _ => true
+  | _ => false
+
+/-- constructor call with a heterogeneous argument list: integers and flags in the order of the Python
+signature; `lens` is the key list of the `classes` dict of `conjugacy_classes` (all values `None`) -/
+def permFamilyP (fam : String) (ps : List Param) : Option PermDef :=
+  if fam = "conjugacy_classes" then
+    match ps with
+    | [.nat n, .lens cls] => conjugacyClasses n cls
+    | _ => none
+  else if ps.any Param.isLens then none
+  else permFamily fam (ps.filterMap Param.nat?) (ps.filterMap Param.flag?)
 
 /-! ## matrix families (`MatrixGroups`) -/
 
